@@ -3,6 +3,7 @@ CONSTANTS
   LineForms <- NoForms
   FirstForms <- NoForms
   MaxLines = 1000
+  MaxBlocks = 1
   AsFound_MarkerTestedOnRawLine = FALSE
   SlotSeq <- MC_SlotSeq
   DescClasses <- MC_DescClasses
